@@ -77,7 +77,9 @@ func (p *BPoint) Add(q *BPoint) *BPoint {
 	return &BPoint{fMul(e, f), fMul(g, h), fMul(f, g), fMul(e, h)}
 }
 
-func (p *BPoint) Neg() *BPoint { return &BPoint{fNeg(p.X), new(big.Int).Set(p.Y), new(big.Int).Set(p.Z), fNeg(p.T)} }
+func (p *BPoint) Neg() *BPoint {
+	return &BPoint{fNeg(p.X), new(big.Int).Set(p.Y), new(big.Int).Set(p.Z), fNeg(p.T)}
+}
 func (p *BPoint) Sub(q *BPoint) *BPoint { return p.Add(q.Neg()) }
 
 // Mul returns n*p for any non-negative integer n and any point (double-and-add).
